@@ -12,16 +12,20 @@ RULE = ("case = (1..2 base SimulationPorts of width 0..8 with per-bit inversion 
         "foreign clocks, alone or coincident}). Non-trivial = an observable changed and a fault kind fired; "
         "distinct = distinct SHA-256 of the observation trace.")
 ASSUMPTIONS = [
-    "Only the simulated half of the statement is decided (Buffer/FFBuffer on SimulationPort and the port algebra); the clause "
-    "about netlists for real I/O ports is a static structural fact and is not covered.",
-    "Inputs change only between clock edges; no resets applied (FFBuffer registers are reset-less).",
+    "The simulated half of the statement is decided (Buffer/FFBuffer on SimulationPort and the port algebra). The clause about "
+    "netlists for real I/O ports is a static structural fact; it rides along only as far as: one buffer converts, has exactly one "
+    "$tribuf cell (none for an input buffer) whose enable is not a constant, a second buffer on an overlapping bit is diagnosed, "
+    "and wrapping the buffer in EnableInserter / ResetInserter / DomainRenamer (no logic to act on) leaves the RTLIL unchanged.",
+    "Inputs change only between clock edges. In a seeded third of the runs the four domains have resets that are pulsed at "
+    "arbitrary instants: FFBuffer registers are reset-less, so nothing may change.",
+    "A buffer whose direction its port cannot serve must be refused with ValueError when it is constructed.",
     "Base-port bits not covered by the composed port are expected to keep their initial values.",
 ]
 COMPONENTS = {"real": ["amaranth.lib.io.SimulationPort algebra (__getitem__/__add__/__invert__)", "amaranth.lib.io.Buffer",
                        "amaranth.lib.io.FFBuffer", "amaranth.hdl elaboration", "amaranth.sim"],
               "stub": ["PermSet scheduler seam", "clock driver", "per-bit map model over the base ports"]}
 EXPECTED_PROBES = ("coincide", "inactive", "glitch-in", "loopback", "inverted_bits", "sliced", "concatenated", "ff_o_edge",
-                   "ff_i_edge")
+                   "ff_i_edge", "reset", "wrapped_real_buffer", "incompatible_buffers_refused", "real_port_algebra")
 
 DOMS = ["sync", "di", "do", "x"]
 
@@ -167,6 +171,8 @@ def gen_case(seed, tier):
     nsteps = cfg.randint(15, 120) if tier == "quick" else cfg.randint(15, 500)
     p_coin = fl.choice([0.0, 0.3, 0.7])
     levels = {dn: 0 for dn in DOMS}
+    rlv = {dn: 0 for dn in DOMS}
+    config["resets"] = fl.random() < 0.3
     steps = []
     targets = []
     if bdir != "i":
@@ -199,6 +205,10 @@ def gen_case(seed, tier):
                 levels[dn] ^= 1
                 ch[dn] = levels[dn]
             steps.append({"k": "ev", "l": ch})
+            if config["resets"] and fl.random() < 0.08:
+                dn = fl.choice(DOMS)
+                rlv[dn] ^= 1
+                steps.append({"k": "rst", "l": {dn: rlv[dn]}})
         elif wl.random() < 0.2:
             dn = wl.choice(DOMS)
             levels[dn] ^= 1
@@ -259,9 +269,17 @@ def run_case(case):
                   for i, b in enumerate(bases)]
             q = realise(config["expr"], rp)
 
-            def design(two):
+            def design(two, wrap=0):
                 m = Module()
-                m.submodules.b0 = b0 = io.Buffer(bdir, q)
+                b0 = io.Buffer(bdir, q)
+                if wrap:
+                    # a control inserter / renamer around a buffer has no logic to act on: the netlist must not change
+                    from amaranth.hdl import EnableInserter, ResetInserter, DomainRenamer
+                    ctl = Signal(name="ctl")
+                    m.submodules.b0 = {1: EnableInserter({"sync": ctl}), 2: ResetInserter({"sync": ctl}),
+                                       3: DomainRenamer({"sync": "other"})}[wrap](b0)
+                else:
+                    m.submodules.b0 = b0
                 outs = []
                 if bdir != "i":
                     o_ = Signal(n, name="o_")
@@ -278,7 +296,21 @@ def run_case(case):
                         outs.append(b1.i)
                 return m, outs
             m1, outs1 = design(False)
-            rtlil.convert(m1, ports=outs1)
+            t1 = rtlil.convert(m1, ports=outs1, emit_src=False)
+            ntri = t1.count("cell $tribuf")
+            if ntri != (0 if bdir == "i" else 1):
+                raise Violation("real_port_buffer_cells", -1, {"dir": bdir, "tribuf_cells": ntri})
+            import re as _re
+            for en in _re.findall(r"connect \\EN (\S+)", t1):
+                if en[0].isdigit():
+                    raise Violation("real_port_output_enable_constant", -1, {"dir": bdir, "EN": en})
+            wrap = 1 + (len(t1) + n) % 3
+            mw, outsw = design(False, wrap)
+            tw = rtlil.convert(mw, ports=outsw, emit_src=False)
+            if tw != t1:
+                raise Violation("netlist_changed_by_wrapper_without_logic", -1,
+                                {"wrapper": {1: "EnableInserter", 2: "ResetInserter", 3: "DomainRenamer"}[wrap], "dir": bdir})
+            P["wrapped_real_buffer"] = P.get("wrapped_real_buffer", 0) + 1
             m2, outs2 = design(True)
             try:
                 rtlil.convert(m2, ports=outs2)
@@ -286,6 +318,20 @@ def run_case(case):
                 P["double_use_diagnosed"] = P.get("double_use_diagnosed", 0) + 1
             else:
                 raise Violation("port_bit_used_by_two_buffers", -1, {"dir": bdir, "width": n})
+        # a buffer whose direction the port cannot serve must be refused when it is constructed (ValueError), for every port and
+        # buffer kind: Input port with Output/Bidir buffer, Output port with Input/Bidir buffer
+        for pd, bd in (("i", "o"), ("i", "io"), ("o", "i"), ("o", "io")):
+            for mkp in (lambda dd: io.SingleEndedPort(IOPort(2, name="rp"), direction=dd),
+                        lambda dd: io.DifferentialPort(IOPort(2, name="rpp"), IOPort(2, name="rpn"), direction=dd),
+                        lambda dd: io.SimulationPort(dd, 2, name="sp")):
+                for mkb in (io.Buffer, io.FFBuffer):
+                    try:
+                        mkb(bd, mkp(pd))
+                    except ValueError:
+                        continue
+                    raise Violation("incompatible_buffer_accepted", -1, {"port_direction": pd, "buffer_direction": bd,
+                                                                         "buffer": mkb.__name__})
+        P["incompatible_buffers_refused"] = P.get("incompatible_buffers_refused", 0) + 1
         # Input + Output must be refused for every port kind
         for mk in (lambda dd, nm: io.SingleEndedPort(IOPort(1, name=nm), direction=dd),
                    lambda dd, nm: io.DifferentialPort(IOPort(1, name=nm + "p"), IOPort(1, name=nm + "n"), direction=dd),
@@ -318,7 +364,8 @@ def run_case(case):
     else:
         i_dom = o_dom = None
         buf = io.Buffer(bdir, port)
-    domains = [DomainSpec(dn, edge=config["edges"][dn], reset_less=True) for dn in DOMS]
+    # the domains have (synchronous) resets, pulsed by "rst" steps: FFBuffer's registers are reset-less, nothing may change
+    domains = [DomainSpec(dn, edge=config["edges"][dn], reset_less=not config.get("resets")) for dn in DOMS]
     act = {dn: (1 if config["edges"][dn] == "pos" else 0) for dn in DOMS}
     comp = config.get("companion")
     buf2 = None
@@ -424,7 +471,11 @@ def run_case(case):
         for idx, st in enumerate(case["steps"]):
             drv.begin_step(idx)
             stats["steps"] += 1
-            if st["k"] == "set":
+            if st["k"] == "rst":
+                if config.get("resets"):
+                    F["reset"] = F.get("reset", 0) + 1
+                    drv.drive({dn + ".rst": lvl for dn, lvl in st["l"].items()})
+            elif st["k"] == "set":
                 name = st["p"]
                 if name in sigs:
                     v = st["v"] & ((1 << len(sigs[name])) - 1)
